@@ -34,7 +34,10 @@ func (n *RawNode) Unicast(ctx context.Context, d CallData, opts ...CallOption) {
 	vEmit("CallIssued", 0, md.MessageID, "expected", 1)
 	// channel sends an empty reply on replyChan when the message has been sent
 	// wait until the message has been sent
-	<-replyChan
+	select {
+	case <-replyChan:
+	case <-ctx.Done():
+	}
 	vEmit("CallConfirm", 0, md.MessageID, "left", 0)
 	vEmit("CallEnd", 0, md.MessageID, "out", "sent")
 }
